@@ -200,6 +200,12 @@ def run(ctx):
             ctx.broken.append("K_resp_dissect: model and implementation differ (case %d: client %r server %r)" % (
                 bad[0], b"".join(k[0])[:120], b"".join(k[2])[:120]))
             ctx.log("model mismatches: %d of %d" % (len(bad), len(kcases)))
+        # the Coq specification against the independent encoder / oracle (same conversations)
+        small = [c[1] for c in cases if sum(len(x) for x in c[2]) + sum(len(x) for x in c[4]) < 1500][:300 if ctx.tier == "quick" else 4000]
+        sbad = resp.spec_check(ctx, small, tb)
+        if sbad:
+            ctx.broken.append("K_resp_spec: RespSpec.v and the Python encoder/oracle differ on conversation %s" %
+                              json.dumps(resp.to_jsonable(small[sbad[0]]))[:600])
     else:
         ctx.broken.append("K_resp_dissect: the RESP model does not compile")
     ctx.trusted += [
